@@ -2646,7 +2646,8 @@ func (p *Posix) UploadPartCopy(ctx context.Context, upi *s3.UploadPartCopyInput)
 	vEnabled := p.isBucketVersioningEnabled(vStatus)
 
 	if srcVersionId != "" {
-		if !p.versioningEnabled() || !vEnabled {
+		// versions stay readable while versioning is Suspended
+		if !p.versioningEnabled() || (!vEnabled && !p.isBucketVersioningSuspended(vStatus)) {
 			return s3response.CopyPartResult{}, s3err.GetAPIError(s3err.ErrInvalidVersionId)
 		}
 		vId, err := p.meta.RetrieveAttribute(nil, srcBucket, srcObject, versionIdKey)
@@ -4159,7 +4160,8 @@ func (p *Posix) CopyObject(ctx context.Context, input s3response.CopyObjectInput
 	vEnabled := p.isBucketVersioningEnabled(vStatus)
 
 	if srcVersionId != "" {
-		if !p.versioningEnabled() || !vEnabled {
+		// versions stay readable while versioning is Suspended
+		if !p.versioningEnabled() || (!vEnabled && !p.isBucketVersioningSuspended(vStatus)) {
 			return nil, s3err.GetAPIError(s3err.ErrInvalidVersionId)
 		}
 		vId, err := p.meta.RetrieveAttribute(nil, srcBucket, srcObject, versionIdKey)
